@@ -34,6 +34,14 @@ def handleCond (op : String) (args : List String) (impl : Option (List String)) 
       some ⟨expected, impl.map fun out =>
         if out.head? == some "crash" then "bad:crash"
         else if out == expected then "ok" else "bad:wait-broadcast"⟩
+  | "race", _ =>
+    -- schedule exploration of the real server (race detector, own-reply and final-state checks):
+    -- the statement allows exactly one outcome
+    some ⟨["ok"], impl.map fun out =>
+      match out with
+      | ["ok"] => "ok"
+      | [o] => "bad:" ++ ((o.splitOn ":").headD "unknown")
+      | _ => "bad:protocol"⟩
   | _, _ => none
 
 end Ysshra.Drv
